@@ -94,6 +94,8 @@ func checkDirection(sim *core.Sim, prop string, x, y *stationRT, rx, ry *sessRes
 				sim.Violate(prop, "exactly-once", "accepted-delivered-n-times", "%s->%s %s accepted: delivered %d times (begin %d)", x.name, y.name, mid, g.inbOK, g.inbBegin)
 			} else if !bytes.Equal(g.data, x.queued[mid]) {
 				sim.Violate(prop, "byte-identity", "delivered-differs", "%s->%s %s delivered content differs from queued (%d vs %d bytes)", x.name, y.name, mid, len(g.data), len(x.queued[mid]))
+			} else if same, why := sameContent(g.data, x.composed[mid]); !same {
+				sim.Violate(prop, "byte-identity", "delivered-content-differs-from-composed", "%s->%s %s: what was delivered is not the message as it was composed: %s", x.name, y.name, mid, why)
 			}
 			if g.sentOK != 1 || g.sentRej != 0 {
 				sim.Violate(prop, "sent-report", "accepted-not-reported-once", "%s %s accepted by peer: SetSent(false) %d times, SetSent(true) %d times", x.name, mid, g.sentOK, g.sentRej)
